@@ -25,6 +25,79 @@ pub struct Case {
 }
 
 const CODES: [i32; 6] = [7, 42, 79, 81, 123, 1];
+/// skip codes no command can exit with: "skipping switched off"
+const SENTINELS: [i32; 7] = [-1, -1, -1, -100, -255, 256, -80];
+
+/// a Markdown document whose skip code is a sentinel: nothing in it can skip, whatever happens
+/// (time-outs by per-test and by document limit, detached test cases, exit codes 80 / 255)
+fn gen_sentinel_doc(rng: &mut Rng, d: usize) -> DocSpec {
+    let code = *rng.pick(&SENTINELS);
+    let inline = rng.chance(1, 3);
+    let n = 2 + rng.below(4);
+    let doc_limit = rng.chance(1, 3);
+    let slow_at = if rng.chance(2, 3) { Some(rng.below(n)) } else { None };
+    let mut tests = vec![];
+    for j in 0..n {
+        let mut t = TestSpec::pass(&format!("d{d}t{j}"));
+        if slow_at == Some(j) {
+            t.sleep_ms = 8000;
+            if !doc_limit {
+                t.timeout_ms = Some(300);
+            }
+        } else {
+            match rng.weighted(&[4, 1, 2, 2]) {
+                0 => {}
+                1 => t.output_ok = false,
+                2 => {
+                    t.exit = *rng.pick(&[DEFAULT_SKIP_CODE, 255, 1]);
+                    t.expect_code = if rng.bool() { Some(t.exit) } else { None };
+                    t.hard_exit = rng.bool();
+                }
+                _ => t.detached = true,
+            }
+        }
+        if inline {
+            t.skip_code = Some(code);
+        }
+        tests.push(t);
+    }
+    let mut doc = DocSpec::new(&format!("d{d}.md"), Format::Markdown, tests);
+    if !inline || rng.bool() {
+        doc.skip_code = Some(code);
+    }
+    if doc_limit && slow_at.is_some() {
+        doc.total_timeout_ms = Some(1000);
+    }
+    doc
+}
+
+/// one script-mode document whose compiled script is far larger than a pipe buffer and whose
+/// first test case leaves the shell with the skip code (or returns it from a sub-shell)
+fn gen_large_run(variant: u64) -> RunSpec {
+    let (fmt, cram_compat, code, hard) = match variant % 3 {
+        0 => (Format::Cram, false, DEFAULT_SKIP_CODE, true),
+        1 => (Format::Markdown, true, 42, true),
+        _ => (Format::Cram, false, DEFAULT_SKIP_CODE, false),
+    };
+    let mut t = TestSpec::pass("d0t0");
+    t.exit = code;
+    t.hard_exit = hard;
+    let mut doc = DocSpec::new(if fmt == Format::Cram { "d0.t" } else { "d0.md" }, fmt, vec![t]);
+    if code != DEFAULT_SKIP_CODE {
+        doc.skip_code = Some(code);
+    }
+    doc.filler = 700;
+    doc.filler_pad = 120;
+    RunSpec {
+        args: vec![doc.name.clone()],
+        docs: vec![doc],
+        aux: vec![],
+        cli_prepend: vec![],
+        cli_append: vec![],
+        cli_timeout_s: None,
+        cram_compat,
+    }
+}
 
 fn gen_doc(rng: &mut Rng, d: usize, fmt: Format) -> DocSpec {
     let md = fmt == Format::Markdown;
@@ -172,7 +245,7 @@ fn gen_run(rng: &mut Rng) -> RunSpec {
     let docs: Vec<DocSpec> = (0..n_docs)
         .map(|d| {
             let fmt = if rng.chance(2, 3) { Format::Markdown } else { Format::Cram };
-            let mut doc = gen_doc(rng, d, fmt);
+            let mut doc = if !cram_compat && fmt == Format::Markdown && rng.chance(1, 6) { gen_sentinel_doc(rng, d) } else { gen_doc(rng, d, fmt) };
             if cram_compat && fmt == Format::Markdown {
                 scriptify(rng, &mut doc);
             }
@@ -188,6 +261,15 @@ fn gen_run(rng: &mut Rng) -> RunSpec {
         cli_timeout_s: None,
         cram_compat,
     }
+}
+
+/// the report, abbreviated when it is long
+fn brief(results: &[(String, String, String)]) -> String {
+    if results.len() <= 12 {
+        return format!("{results:?}");
+    }
+    let n = |k: Class| results.iter().filter(|r| Class::of_kind(&r.2) == k).count();
+    format!("{:?} ... ({} results: {} pass, {} fail, {} timeout, {} skipped)", &results[..4], results.len(), n(Class::Pass), n(Class::Fail), n(Class::Timeout), n(Class::Skipped))
 }
 
 fn skip_findings(run: &RunSpec, docs: &[DocModel], results: &[(String, String, String)]) -> Vec<Finding> {
@@ -224,22 +306,26 @@ fn skip_findings(run: &RunSpec, docs: &[DocModel], results: &[(String, String, S
                 };
                 out.push(Finding {
                     clause: "skip-not-total".into(),
-                    cause: format!("{fmt}/code={code}/{pos}"),
+                    cause: format!("{fmt}/code={code}/{pos}{}", if spec.filler > 0 { "/large-script" } else { "" }),
                     detail: format!(
-                        "test case {} of {} exits with its skip code {} but the document is not reported as skipped throughout; model: {}; report: {:?}",
+                        "test case {} of {} exits with its skip code {} but the document is not reported as skipped throughout; model: {}; report: {}",
                         t.id,
                         d.name,
                         t.exit,
                         describe_doc(d),
-                        results
+                        brief(results)
                     ),
                 });
             }
             DocEnd::Completed | DocEnd::TimedOut { .. } => {
                 let stop = match d.end {
+                    // the timed-out test case itself does not "follow a timed-out one"
+                    DocEnd::TimedOut { at, attributed: true, or_next: false } => at + 1,
                     DocEnd::TimedOut { at, .. } => at,
                     _ => d.seq.len(),
                 };
+                let effective: Vec<i32> = spec.tests.iter().map(|t| t.skip_code.or(spec.skip_code).unwrap_or(DEFAULT_SKIP_CODE)).collect();
+                let sentinel = !effective.is_empty() && effective.iter().all(|c| !(0..=255).contains(c));
                 let wrongly: Vec<usize> = (0..stop.min(d.seq.len())).filter(|i| class_of(&d.seq[*i].id) == Some(Class::Skipped)).collect();
                 if wrongly.is_empty() || (d.script && matches!(d.end, DocEnd::TimedOut { .. })) {
                     continue;
@@ -247,8 +333,13 @@ fn skip_findings(run: &RunSpec, docs: &[DocModel], results: &[(String, String, S
                 let foreign = spec.tests.iter().any(|t| t.exit != 0 && all_codes.contains(&t.exit));
                 out.push(Finding {
                     clause: "skipped-without-skip-code".into(),
-                    cause: format!("{fmt}/{}", if foreign { "a-test-exits-with-somebody-elses-skip-code" } else { "no-skip-code-in-sight" }),
-                    detail: format!("no test case of {} exits with its own skip code, yet test case(s) {:?} are reported as skipped; model: {}; report: {:?}", d.name, wrongly.iter().map(|i| &d.seq[*i].id).collect::<Vec<_>>(), describe_doc(d), results),
+                    cause: if sentinel {
+                        // nothing can exit with the configured code at all
+                        format!("{fmt}/unreachable-skip-code/{}", if matches!(d.end, DocEnd::TimedOut { .. }) { "document-timed-out" } else if spec.tests.iter().any(|t| t.detached) { "detached-test-case" } else { "plain" })
+                    } else {
+                        format!("{fmt}/{}", if foreign { "a-test-exits-with-somebody-elses-skip-code" } else { "no-skip-code-in-sight" })
+                    },
+                    detail: format!("no test case of {} exits with its own skip code, yet test case(s) {:?} are reported as skipped; model: {}; report: {}", d.name, wrongly.iter().map(|i| &d.seq[*i].id).collect::<Vec<_>>(), describe_doc(d), brief(results)),
                 });
             }
             DocEnd::Aborted(_) => {}
@@ -267,7 +358,7 @@ impl Monitor for C15 {
     fn plan(&self, tier: Tier) -> Plan {
         let mut p = Plan::new(
             tier.pick(400, 6000),
-            "runs of 1-3 documents (Markdown/Cram); skip code default 80, per document (front-matter defaults) or per test case; skipping test case first/middle/last, by `exit N` or `(exit N)`; in script mode also `(exit <skip code>)` followed later by a hard `exit` with another code; a quarter of the runs under --cram-compat (Markdown documents executed as one script with one skip code); neighbours that pass, fail, expect [80] / the skip code, exit with somebody else's code, time out; non-trivial = a document the model says is skipped, or a document where a test case exits with a code that is a skip code elsewhere (80, the document's, a neighbour's) without skipping; distinct = hash of (format, end, position, classes per test case) over the run",
+            "runs of 1-3 documents (Markdown/Cram); skip code default 80, per document (front-matter defaults) or per test case; skipping test case first/middle/last, by `exit N` or `(exit N)`; in script mode also `(exit <skip code>)` followed later by a hard `exit` with another code; documents with an unreachable skip code (-1, -100, -255, 256, -80) in which test cases time out (per-test and document limit), detach, exit 80/255; two script-mode documents per quick run whose script is far larger than a pipe buffer and whose first test case exits with the skip code; a quarter of the runs under --cram-compat (Markdown documents executed as one script with one skip code); neighbours that pass, fail, expect [80] / the skip code, exit with somebody else's code, time out; non-trivial = a document the model says is skipped, or a document where a test case exits with a code that is a skip code elsewhere (80, the document's, a neighbour's) without skipping; distinct = hash of (format, end, position, classes per test case) over the run",
         );
         p.chunk = tier.pick(2, 4);
         p.case_timeout_s = 120;
@@ -282,6 +373,8 @@ impl Monitor for C15 {
             ("skip:custom-code".into(), tier.pick(30, 360)),
             ("skipper-ran".into(), tier.pick(70, 800)),
             ("script:skip-then-hard-exit".into(), tier.pick(3, 40)),
+            ("large-script:skipper-leaves-the-shell".into(), tier.pick(1, 10)),
+            ("unreachable-skip-code:timed-out".into(), tier.pick(3, 50)),
             ("kind:skipped".into(), tier.pick(200, 2400)),
         ];
         p.assumptions = vec![
@@ -292,7 +385,14 @@ impl Monitor for C15 {
         p
     }
 
-    fn gen(&self, _env: &Env, _k: u64, rng: &mut Rng) -> Case {
+    fn gen(&self, _env: &Env, k: u64, rng: &mut Rng) -> Case {
+        if k % 200 == 7 {
+            // the size family: two documents per quick run
+            return Case {
+                run: gen_large_run(k / 200),
+                summary: false,
+            };
+        }
         for _ in 0..20 {
             let run = gen_run(rng);
             if let Ok(m) = model_run(&run) {
@@ -348,6 +448,20 @@ impl Monitor for C15 {
         // a skip the model predicts rests on the skipping test case having run
         let mut nontrivial = false;
         for (d, spec) in model.docs.iter().zip(case.run.docs.iter()) {
+            if spec.filler > 0 {
+                nontrivial = true;
+                buckets.push(format!("large-script:{}", if spec.tests.iter().any(|t| t.hard_exit) { "skipper-leaves-the-shell" } else { "skipper-in-sub-shell" }));
+            }
+            if spec.skip_code.is_some_and(|c| !(0..=255).contains(&c)) || spec.tests.iter().any(|t| t.skip_code.is_some_and(|c| !(0..=255).contains(&c))) {
+                nontrivial = true;
+                buckets.push("unreachable-skip-code:document".into());
+                if matches!(d.end, DocEnd::TimedOut { .. }) {
+                    buckets.push("unreachable-skip-code:timed-out".into());
+                }
+                if spec.tests.iter().any(|t| t.detached) {
+                    buckets.push("unreachable-skip-code:with-detached".into());
+                }
+            }
             if let DocEnd::Skipped { by } = d.end {
                 nontrivial = true;
                 if obs.markers.contains(&d.seq[by].id) {
@@ -421,7 +535,7 @@ impl Monitor for C15 {
         // "no test case is reported as skipped" otherwise
         let own = skip_findings(&case.run, &j.docs, obs.results.as_deref().unwrap_or(&[]));
         let mut c = match own.first().or(findings.first()) {
-            Some(f) => Checked::violated(f.sig("C15"), f.detail.clone()),
+            Some(f) => Checked::violated(f.sig("C15"), f.detail.chars().take(1500).collect::<String>()),
             None => Checked::held(),
         };
         c = c.shape(nontrivial, shape_of(&j.docs));
